@@ -408,6 +408,7 @@ tpt_msg_bsend_ex(tp_p tp, tpt_p src, uint32_t flags,
 			}
 		} else { /* Cant async call from self. */
 			msg_cb(src, udata);
+			msg_data_s.send_msg_cnt ++;
 		}
 		goto err_out; /* Sended / error on send. */
 	}
